@@ -485,4 +485,78 @@ theorem internal_runs_actions_only (h : Hooks) (hok : HooksOK h) (htr : HooksTra
 example : (planOf cI).internal = true ∧ (run exU .sync "I" cI).cfg = exCfg ∧
     (run exU .sync "I" cI).chron = ["ti@I", "#t:m,m.P,m.P.A,m.P.A.a1,m.P.B,m.P.B.b1"] := by decide
 
+/-! ## 7. the exit set leaves the configuration one state at a time -/
+
+/-- once the error flag is set the rest of the exit set is not processed -/
+theorem exits_stop_at_an_error (h : Hooks) (fl : Flavor) (m : Machine) (ev : Option String) :
+    ∀ (xs : List Path) (s : St), s.err.isSome = true → xs.foldl (exitOne h fl m ev) s = s := by
+  intro xs
+  induction xs with
+  | nil => intro s _; rfl
+  | cons a xs ih =>
+    intro s hs
+    have h1 : exitOne h fl m ev s a = s := by unfold exitOne; simp [hs]
+    rw [List.foldl_cons, h1]
+    exact ih s hs
+
+/-- **a state leaves the configuration only after its OWN exit actions ran.** After the first part `pre` of an exit
+    set has been processed without an escaping error, the configuration is the one the transition started from minus
+    exactly `pre`: every state that is exited later - the ancestors and the sibling regions of what went first - is
+    still active, and is what the exit actions of the next state `p` see (`stateIn`, `choose`):
+    `exitOne … p` runs `p`'s exit actions in that state and removes `p` afterwards -/
+theorem exit_set_leaves_one_by_one (h : Hooks) (hok : HooksOK h) (fl : Flavor) (m : Machine) (ev : Option String) :
+    ∀ (pre : List Path) (s : St), (∀ p ∈ pre, (m.defAt p).isSome = true) →
+      (pre.foldl (exitOne h fl m ev) s).err = none →
+      (pre.foldl (exitOne h fl m ev) s).cfg = s.cfg.filter (fun q => !pre.contains q) := by
+  intro pre
+  induction pre with
+  | nil =>
+    intro s _ _
+    exact (List.filter_eq_self.2 (fun _ _ => rfl)).symm
+  | cons a pre ih =>
+    intro s hdef herr
+    rw [List.foldl_cons] at herr ⊢
+    cases hs : s.err with
+    | some e =>
+      have hs' : s.err.isSome = true := by simp [hs]
+      have h1 : exitOne h fl m ev s a = s := by unfold exitOne; simp [hs']
+      rw [h1, exits_stop_at_an_error h fl m ev pre s hs'] at herr
+      rw [hs] at herr; cases herr
+    | none =>
+      obtain ⟨d, hd⟩ := Option.isSome_iff_exists.1 (hdef a (by simp))
+      have h1 : exitOne h fl m ev s a = delActive a (execActions h d.exit (exitEvName fl m a ev) s) := by
+        unfold exitOne; simp [hs, hd]
+      rw [h1] at herr ⊢
+      rw [ih _ (fun p hp => hdef p (by simp [hp])) herr]
+      simp only [delActive, execActions_cfg h hok, List.filter_filter]
+      apply List.filter_congr
+      intro q _
+      by_cases hqa : q = a
+      · subst hqa; simp
+      · have : (q != a) = true := by simp [hqa]
+        simp [hqa, this]
+
+/-- … in particular the state whose exit actions run next is itself still active then -/
+theorem exiting_state_active_during_its_exit_actions (h : Hooks) (hok : HooksOK h) (fl : Flavor) (m : Machine)
+    (ev : Option String) (pre : List Path) (p : Path) (s : St) (hdef : ∀ q ∈ pre, (m.defAt q).isSome = true)
+    (herr : (pre.foldl (exitOne h fl m ev) s).err = none) (hp : p ∈ s.cfg) (hnew : p ∉ pre) (d : StateDef)
+    (hd : m.defAt p = some d) :
+    p ∈ (pre.foldl (exitOne h fl m ev) s).cfg ∧
+    exitOne h fl m ev (pre.foldl (exitOne h fl m ev) s) p =
+      delActive p (execActions h d.exit (exitEvName fl m p ev) (pre.foldl (exitOne h fl m ev) s)) := by
+  refine ⟨?_, ?_⟩
+  · rw [exit_set_leaves_one_by_one h hok fl m ev pre s hdef herr]
+    simp [List.mem_filter, hp, hnew]
+  · generalize pre.foldl (exitOne h fl m ev) s = sk at herr
+    unfold exitOne
+    simp [herr, hd]
+
+/-- the hypotheses are met on the example, and the statement says something: after the two leaves of the exit set of
+    `Y` have been exited, the regions `P.A`, `P.B` and `P` itself - exited later in the same transition - are still
+    in the configuration their exit actions see -/
+example : (((planOf cY).exits.take 2).foldl (exitOne (hooksFlagged exU exM) .sync exM (some "Y")) exS).cfg =
+      [[], ["P"], ["P", "A"], ["P", "B"]] ∧
+    (((planOf cY).exits.take 2).foldl (exitOne (hooksFlagged exU exM) .sync exM (some "Y")) exS).err.isNone = true ∧
+    (∀ p ∈ (planOf cY).exits, (exM.defAt p).isSome = true) := by decide
+
 end XSM.C03
